@@ -867,6 +867,37 @@ func checkDispatchExclusive(p *core.Program, r *core.Report) {
 	})
 	r.Count("guarded steps of dispatching", n)
 	r.Min("guarded steps of dispatching", 3)
+	// only the dispatching that obtained the reservation releases it: a release registered before the outcome is
+	// known lets the loser (a retry tick that found the bundle busy) remove the owner's reservation on its way out
+	nRel := 0
+	core.EachInstr(disp, func(in ssa.Instruction) {
+		var c ssa.CallInstruction
+		switch x := in.(type) {
+		case *ssa.Defer:
+			c = x
+		case *ssa.Call:
+			c = x
+		default:
+			return
+		}
+		nm := core.CalleeName(c)
+		if nm != "sync.Map.Delete" && nm != "sync.Map.LoadAndDelete" {
+			return
+		}
+		if owner, _, ok := core.FieldOwner(core.CallRecv(c)); !ok || owner.Obj().Name() != "Core" {
+			return
+		}
+		nRel++
+		owned := false
+		for _, cd := range core.DominatingConds(in.Block()) {
+			if ex, ok := cd.V.(*ssa.Extract); ok && ex.Tuple == ssa.Value(reserve) && ex.Index == 1 && !cd.True {
+				owned = true
+			}
+		}
+		r.Check(owned, key+"released-by-owner-only", "the reservation is released (or its release registered) only on the branch on which this dispatching obtained it", p.Pos(in.Pos()), "", "the release is also reached when the bundle was found busy: the loser removes the reservation of the dispatching that is still at work, a third one then enters alongside it")
+	})
+	r.Count("releases of the dispatch reservation", nRel)
+	r.Min("releases of the dispatch reservation", 1)
 }
 
 // checkPropertiesPersisted: a routing algorithm keeps per-bundle state in the
